@@ -136,6 +136,13 @@ def serialise(g, rng, base_name="Opc.Ua.NodeSet2.xml", placement=None, file_name
                     a = g.nodes[k]["bname"][1]
                     if a in alias_of.values(): continue
                     alias_of[k] = a; alias_list.append((a, nid_text(k, local)))
+            # an alias belongs to the document that defines it: every document may bind the same names to other nodes
+            rts = sorted(set(ty for h, ty, f, o in decl if ty not in alias_of and ty[0] in local))
+            if rts and rng.random() < 0.6 and "Ref" not in alias_of.values():
+                k = rng.choice(rts); alias_of[k] = "Ref"; alias_list.append(("Ref", nid_text(k, local)))
+            dts = sorted(set(v for k2 in mine for a2, v in g.nodes[k2]["attrs"].items() if isinstance(v, tuple) and v not in alias_of and v[0] in local))
+            if dts and rng.random() < 0.4 and "Tgt" not in alias_of.values():
+                k = rng.choice(dts); alias_of[k] = "Tgt"; alias_list.append(("Tgt", nid_text(k, local)))
         nodes = []
         for k in mine:
             n = g.nodes[k]
